@@ -322,6 +322,157 @@ def o_decoy_list(ps):
     return all("REV__" in p for p in ps) or all("rev_" in p for p in ps)
 
 
+# ------------------------------------------------------------------------------------------
+# digests of non-specific searches (--enzyme no_enzyme / --digestion none, use_hash_key): digest.get_proteins is handed
+# the pair (peptide[:6] -> proteins, protein -> sequence).  A digest map of a case is then not a list of entries but
+#   {"hash": {"fasta": [[[header, sequence], ...] per file], "decoys_in_fasta": bool, "enzyme": "no_enzyme" | <name>,
+#             "mode": "none", "min": int, "max": int, "mc": int, "special": "KR" | "none",
+#             "via": "from_params" | "maps" | "direct"}}
+# from which run_impl lets the REAL code build the pair (digest.get_peptide_to_protein_map_from_params /
+# peptide_protein_map.get_peptide_to_protein_maps / digest.get_peptide_to_protein_map on the written FASTA), or -- for
+# the per-file maps of an entry-point run, own_digest_maps -- the built form {"index", "seqs", "min", "max"}.
+# Model side: the harness's OWN pair (props.C09.db_records: identifiers by first blank, decoy = reversed sequence
+# with the special-residue swap; props.C09.listing(use_hash=True): every record listed once under the first six
+# residues of each of its substrings inside the window).  Oracle side: the sequences only (substring search).
+# ------------------------------------------------------------------------------------------
+def is_hash(m):
+    return isinstance(m, dict) and ("hash" in m or "index" in m)
+
+
+def hash_records(h):
+    """the database of a hash spec: (identifier, sequence) of the targets and the generated decoys, files and records in
+    the order given"""
+    from props.C09 import db_records, special_list
+
+    out = []
+    for f in h["fasta"]:
+        out += db_records([(hd, sq) for hd, sq in f], "first_space", "target" if h.get("decoys_in_fasta") else "concat",
+                          special_list(h["special"]))
+    return out
+
+
+_BUILT = {}
+
+
+def built_hash(m):
+    """{"index": [[prefix, [protein...]]...], "seqs": [[protein, sequence]...], "min", "max"} of a hash map of either form"""
+    if "index" in m:
+        return m
+    import json
+
+    from props.C09 import listing
+
+    key = json.dumps(m["hash"], sort_keys=True)
+    if key not in _BUILT:
+        if len(_BUILT) > 2000:
+            _BUILT.clear()
+        h = m["hash"]
+        recs = hash_records(h)
+        idx = listing(recs, ([], [], []), h["min"], h["max"], "none", h.get("mc", 0), True, True)
+        _BUILT[key] = {"index": [[k, idx[k]] for k in sorted(idx)], "seqs": [[i, sq] for i, sq in dict(recs).items()],
+                       "min": h["min"], "max": h["max"]}
+    return _BUILT[key]
+
+
+class HashView:
+    """the oracle's view of a non-specific digest: the database sequences and the length window -- no index.
+    A peptide is known to the digest iff it is a substring, of a length inside the window, of a target or generated decoy
+    sequence; its proteins are the sequences containing it.  For a substring OUTSIDE the window the property text says
+    nothing (the tool's lookup does not check the window): such a peptide is not judged (`lookup` -> judged False)."""
+
+    def __init__(self, m):
+        b = built_hash(m)
+        self.seqs = dict((i, sq) for i, sq in b["seqs"])
+        self.min, self.max = b["min"], b["max"]
+
+    def containing(self, q):
+        return sorted(i for i, sq in self.seqs.items() if q in sq)
+
+    def lookup(self, q):
+        """(proteins, judged)"""
+        c = self.containing(q)
+        if c and not (self.min <= len(q) <= self.max):
+            return c, False
+        return c, True
+
+    def get(self, q, default=None):
+        c, judged = self.lookup(q)
+        return c if (c and judged) else ([] if default is None else default)
+
+    def known(self, maxlen=16):
+        """the peptides the digest knows, up to a length"""
+        out = set()
+        for sq in self.seqs.values():
+            for L in range(max(self.min, 1), min(self.max, maxlen, len(sq)) + 1):
+                for i in range(len(sq) - L + 1):
+                    out.add(sq[i:i + L])
+        return out
+
+    def prefix_owners(self, q):
+        """number of database sequences containing the peptide's first six residues"""
+        return sum(1 for sq in self.seqs.values() if q[:6] in sq)
+
+
+class DictView(dict):
+    def lookup(self, q):
+        return self.get(q, []), True
+
+    def known(self, maxlen=16):
+        return set(self)
+
+
+def map_view(m):
+    return HashView(m) if is_hash(m) else DictView((k, v) for k, v in m)
+
+
+def model_map(m):
+    """what the model is sent for a digest map"""
+    if is_hash(m):
+        b = built_hash(m)
+        return {"index": b["index"], "seqs": b["seqs"]}
+    return m
+
+
+def write_fasta_files(files, d, stem="hdb"):
+    paths = []
+    for i, recs in enumerate(files):
+        fp = os.path.join(d, "%s%d.fasta" % (stem, i))
+        with open(fp, "w", encoding="utf-8") as fh:
+            for hd, sq in recs:
+                fh.write(">" + hd + "\n")
+                for a in range(0, len(sq), 7):
+                    fh.write(sq[a:a + 7] + "\n")
+        paths.append(fp)
+    return paths
+
+
+_HASH_SEQ = [0]
+
+
+def impl_map(m, d):
+    """the object the real ingestion is handed for a digest map: a dict, or -- hash spec -- the pair the REAL code builds
+    from the FASTA written into d"""
+    if not is_hash(m):
+        return dict((k, list(v)) for k, v in m)
+    from picked_group_fdr import digest, peptide_protein_map
+    from picked_group_fdr.digestion_params import DigestionParams
+
+    h = m["hash"]
+    _HASH_SEQ[0] += 1
+    paths = write_fasta_files(h["fasta"], d, "hdb%d_" % _HASH_SEQ[0])
+    via = h.get("via", "from_params")
+    if via == "direct" and len(paths) == 1:
+        pre, not_post, post = digest.get_cleavage_sites(h["enzyme"])
+        return digest.get_peptide_to_protein_map(
+            paths[0], "target" if h.get("decoys_in_fasta") else "concat", min_len=h["min"], max_len=h["max"], pre=pre,
+            not_post=not_post, post=post, digestion="none", miscleavages=h.get("mc", 0), methionine_cleavage=True,
+            use_hash_key=True, special_aas=[] if h["special"] == "none" else list(h["special"]))
+    params = DigestionParams(h["enzyme"], h["mode"], h["min"], h["max"], h.get("mc", 0), h["special"], bool(h.get("decoys_in_fasta")))
+    if via == "maps":
+        return peptide_protein_map.get_peptide_to_protein_maps(paths, None, [params], None)[0]
+    return digest.get_peptide_to_protein_map_from_params(paths, [params])
+
+
 def _no_number(sc):
     """the PEP cell holds no number: empty, or text that is no float literal"""
     return isinstance(sc, str) and (sc == "empty" or sc.startswith("junk:"))
@@ -340,12 +491,15 @@ def expected(case):
     st = method_score_type(case["method"])
     fmt, remap = fmt_of(st, case.get("mokapot", False))
     razor = is_razor(st)
-    maps = [dict((k, v) for k, v in m) for m in case["maps"]] if remap else [None]
+    maps = [map_view(m) for m in case["maps"]] if remap else [None]
     if len(maps) == 1:
         maps = maps * len(case["files"])
-    best = {}
+    best, seen = {}, {}
+    # free: stripped peptides the property text does not judge (a substring of a database sequence whose length lies
+    # outside the window of a non-specific digest) -> the sequences containing them (all the tool may report for them);
+    # unordered: peptides whose proteins come from a non-specific digest (a set of sequences: the order is not stated)
     info = {"unknown": 0, "purged": 0, "emptied": 0, "nan": 0, "ties": 0, "scored": 0, "inf": 0, "refused": False,
-            "razor_cell_differs": 0}
+            "razor_cell_differs": 0, "free": {}, "unordered": set(), "hash": {}}
     for rows, dm in zip(case["files"], maps):
         if fmt in ("native", "mokapot", "fragpipe", "sage") and any(_no_number(r["score"]) for r in rows):
             info["refused"] = True
@@ -379,7 +533,25 @@ def expected(case):
                 if r.get("decoy"):
                     fp = ["REV__" + p for p in fp]
             if remap:
-                src = dm.get(key, [])
+                src, judged = dm.lookup(key)
+                if isinstance(dm, HashView):
+                    info["unordered"].add(key)
+                    hk = info["hash"]
+                    tag = ("outside_window" if not judged else "known" if src else "unknown_prefix_in_%s_sequences" % min(dm.prefix_owners(key), 2))
+                    hk[tag] = hk.get(tag, 0) + 1
+                    if len(key) <= 6:
+                        hk["shorter_than_6" if len(key) < 6 else "exactly_6"] = 1
+                    if src and any(o_is_decoy_id(p) for p in src) and not all(o_is_decoy_id(p) for p in src):
+                        hk["in_target_and_decoy_sequence"] = 1
+                    if mp != key:
+                        hk["modified"] = 1
+                if not judged:
+                    info["free"].setdefault(key, [])
+                    info["free"][key].append(list(src))
+                    if fmt == "maxquant" and isinstance(r["score"], str) and r["score"].startswith("junk:"):
+                        # MaxQuant text that is no number counts only in a row that yields a PSM: not judged either
+                        info["refusal_free"] = True
+                    continue
                 if not src:
                     info["unknown"] += 1
                     continue
@@ -394,6 +566,7 @@ def expected(case):
             if not ps:
                 info["emptied"] += 1
                 continue
+            seen.setdefault(key, []).append(ps)
             sc = r["score"]
             if fmt == "maxquant" and isinstance(sc, str) and sc.startswith("junk:"):
                 info["refused"] = True
@@ -429,7 +602,9 @@ def expected(case):
                 best[key] = (s, ps)
             elif s == best[key][0] and ps != best[key][1]:
                 info["ties"] += 1
-    return [(k, v[0], v[1]) for k, v in best.items()], info
+    for k in info["free"]:  # a peptide not judged in one file may have judged PSMs in another: their lists are admissible too
+        info["free"][k] += seen.get(k, [])
+    return [(k, v[0], v[1]) for k, v in best.items() if k not in info["free"]], info
 
 
 CLI_FLAG = {"maxquant": "--mq_evidence", "native": "--perc_evidence", "mokapot": "--perc_evidence",
@@ -487,7 +662,8 @@ def cli_ok(case):
     """file sets the command line can take: per-file digest maps need one map file per evidence file; map
     entries are written `peptide<TAB>p1;p2`, so every entry needs a protein"""
     return (
-        all(ps for m in case["maps"] for _, ps in m)
+        not any(is_hash(m) for m in case["maps"])  # a map file cannot hold the pair of a non-specific digest
+        and all(ps for m in case["maps"] for _, ps in m)
         and all(len(m) > 0 for m in case["maps"])
         and len(case["maps"]) in (0, 1, len(case["files"]))
     )
@@ -504,6 +680,7 @@ ENZ = {
     "trypsinp": (["K", "R"], [], []),
     "lys-c": (["K"], ["P"], []),
     "arg-c": (["R"], ["P"], []),
+    "no_enzyme": ([], [], []),
 }
 RUN_BLOCKS = BARE + ["PLLLR"]
 FAMILY_FLAG = {"maxquant": "--mq_evidence", "perc": "--perc_evidence", "fragpipe": "--fragpipe_psm",
@@ -539,6 +716,12 @@ def own_digest_maps(run):
     maps = []
     for p in eff_digest(run):
         recs = db_records(records, "first_space", db, special_list(p["special"]))
+        if p["enzyme"] == "no_enzyme" or p["mode"] == "none":
+            # non-specific search: the tool builds the (prefix index, sequences) pair; here the harness's own
+            idx = listing(recs, ENZ[p["enzyme"]], p["min"], p["max"], "none", p["mc"], True, True)
+            maps.append({"index": [[k, idx[k]] for k in sorted(idx)], "seqs": [[i, sq] for i, sq in dict(recs).items()],
+                         "min": p["min"], "max": p["max"]})
+            continue
         m = listing(recs, ENZ[p["enzyme"]], p["min"], p["max"], p["mode"], p["mc"], True, False)
         maps.append([[k, m[k]] for k in sorted(m)])
     return maps
@@ -812,7 +995,11 @@ def run_shared(sh):
     from picked_group_fdr import methods
     from picked_group_fdr.parsers import evidence
 
-    maps = [dict((k, list(v)) for k, v in m) for m in sh["maps"]] if sh["maps"] else [None]
+    dm = tempfile.mkdtemp(prefix="pgfdr_c10shm_")
+    try:
+        maps = [impl_map(m, dm) for m in sh["maps"]] if sh["maps"] else [None]
+    finally:
+        shutil.rmtree(dm, ignore_errors=True)
     pristine = copy.deepcopy(maps)
     outs = []
     for c in sh["calls"]:
@@ -1041,12 +1228,131 @@ class P(Prop):
             maps.append(m)
         return maps
 
+    # non-specific digests ---------------------------------------------------------------------------------------
+    HASH_BLOCKS = ["ACDEFG", "GFEDCA", "HIKLM", "PQRST", "TTSSP", "LLGGK", "ACDEFGH", "RKAC", "DEFGHI"]
+    HASH_SHARE = 0.3  # share of the remapping direct / shared-list cases whose digests are non-specific
+
+    def _gen_hash_spec(self, rng):
+        """a small database (2-4 proteins of 2-4 blocks, so six-residue prefixes are shared on purpose; `ACDEFG` / `GFEDCA`
+        are mutual reverses, so peptides of a target AND a generated decoy occur) and the parameters of a non-specific
+        search over it"""
+        names = PROT[: rng.choice([2, 3, 3, 4])]
+        recs = []
+        for nm in names:
+            sq = "".join(rng.choice(self.HASH_BLOCKS) for _ in range(rng.choice([2, 3, 3, 4])))
+            recs.append([nm + rng.choice(["", "", " protein " + nm]), sq])
+        decoys_in = rng.random() < 0.25
+        if decoys_in:
+            for hd, sq in list(recs):
+                if rng.random() < 0.85:
+                    recs.append([("REV__" if rng.random() < 0.8 else "rev_") + hd.split(" ")[0], sq[::-1]])
+        fasta = [recs]
+        if len(recs) > 2 and rng.random() < 0.2:
+            cut = rng.randint(1, len(recs) - 1)
+            fasta = [recs[:cut], recs[cut:]]
+        mn = rng.choice([4, 5, 6, 7, 7, 8])
+        mx = rng.choice([9, 12, 60, 60])
+        enzyme = "no_enzyme" if rng.random() < 0.7 else rng.choice(["trypsin", "lys-c"])
+        via = rng.choice(["from_params", "from_params", "maps", "direct"])
+        if via == "direct" and len(fasta) > 1:
+            via = "from_params"
+        return {"hash": {"fasta": fasta, "decoys_in_fasta": decoys_in, "enzyme": enzyme,
+                         "mode": "none" if enzyme != "no_enzyme" or rng.random() < 0.5 else "full",
+                         "min": mn, "max": mx, "mc": rng.choice([0, 2]), "special": rng.choice(["KR", "KR", "none"]), "via": via}}
+
+    def _hash_variant(self, rng, m):
+        """the same database searched with other parameters (another file's digestion parameter set)"""
+        h = dict(m["hash"])
+        k = rng.choice(["min", "max", "special", "min"])
+        h[k] = {"min": rng.choice([4, 6, 8]), "max": rng.choice([9, 12, 60]), "special": "none" if h["special"] == "KR" else "KR"}[k]
+        return {"hash": h}
+
+    def _hash_pool(self, rng, maps):
+        """stripped peptides for PSMs against non-specific digests: substrings of target sequences, of decoy sequences, of
+        both; peptides contained in NO sequence whose first six residues occur in exactly one / in several sequences
+        (a database peptide with other residues behind the sixth, or with its last residue changed); fewer than six /
+        exactly six residues (interior and at the very end of a sequence); longer than the window; unrelated"""
+        views = [HashView(m) for m in maps if is_hash(m)]
+        v = views[0]
+        seqs = list(v.seqs.items())
+        allseq = [sq for w in views for sq in w.seqs.values()]
+        tgt = [sq for i, sq in seqs if not o_is_decoy_id(i)] or [sq for _, sq in seqs]
+        dec = [sq for i, sq in seqs if o_is_decoy_id(i)]
+
+        def sub(sq, L):
+            L = max(1, min(L, len(sq)))
+            a = rng.randint(0, len(sq) - L)
+            return sq[a:a + L]
+
+        def unknown(q):
+            return not any(q in sq for sq in allseq)
+
+        pool = []
+        hi = min(v.max, 11)
+        for _ in range(3):
+            pool.append(("target", sub(rng.choice(tgt), rng.randint(min(v.min, hi), hi))))
+        if dec:
+            pool.append(("decoy", sub(rng.choice(dec), rng.randint(min(v.min, hi), hi))))
+        both = [q for sq in tgt for L in (max(v.min, 6), max(v.min, 6) + 1) for q in [sq[a:a + L] for a in range(len(sq) - L + 1)]
+                if any(q in d for d in dec)]
+        if both:
+            pool.append(("both", rng.choice(both)))
+        sixes = sorted({sq[a:a + 6] for sq in allseq for a in range(len(sq) - 5)})
+        for want_one in (True, False):
+            cands = [x for x in sixes if (sum(1 for sq in allseq if x in sq) == 1) == want_one]
+            if cands:
+                q = rng.choice(cands) + rng.choice(["W", "WW", "WWK", "WAC", "YDEFG"])
+                if unknown(q):
+                    pool.append(("unknown_prefix_one" if want_one else "unknown_prefix_several", q))
+        for _ in range(2):  # a database peptide with its last residue changed
+            q = sub(rng.choice(tgt + dec), rng.randint(max(v.min, 7), max(v.min, 7) + 3))
+            q = q[:-1] + rng.choice("WYV")
+            if len(q) > 6 and unknown(q):
+                pool.append(("unknown_last_residue", q))
+        pool.append(("short", sub(rng.choice(tgt), rng.choice([3, 4, 5, 5]))))
+        pool.append(("six", sub(rng.choice(tgt), 6)))
+        pool.append(("six_at_end", rng.choice(tgt + dec)[-6:]))
+        if v.max < 20:
+            long = [sq for sq in tgt if len(sq) > v.max]
+            if long:
+                pool.append(("longer_than_window", sub(rng.choice(long), v.max + 1)))
+        pool.append(("unrelated", rng.choice(["WWWWWWW", "AAAAK", "NAQQKAAAAK"])))
+        return pool
+
+    def _hash_case_parts(self, rng, nmaps):
+        """(maps, bare peptides) of a remapping call whose digests are non-specific: one database; with several maps the
+        other files' digests are the same database under other parameters, or (20 %) an ordinary dict digest"""
+        m0 = self._gen_hash_spec(rng)
+        maps = [m0]
+        for _ in range(nmaps - 1):
+            maps.append(self._hash_variant(rng, m0) if rng.random() < 0.8 else None)
+        pool = self._hash_pool(rng, [m for m in maps if m])
+        prefer = [q for t, q in pool if t.startswith("unknown_prefix") or t == "unknown_last_residue"]
+        rest = [q for t, q in pool if q not in prefer]
+        bares = []
+        if prefer and rng.random() < 0.85:
+            bares += rng.sample(prefer, min(len(prefer), rng.choice([1, 1, 2])))
+        for q in rng.sample(rest, min(len(rest), rng.choice([2, 3, 3, 4]))):
+            if q not in bares:
+                bares.append(q)
+        rng.shuffle(bares)
+        maps = [m if m else self._gen_maps(rng, bares, 1)[0] for m in maps]
+        return maps, bares
+
     def gen_case(self, rng, tier):
         u = rng.random()
         if u < 0.08:
             return {"shared": self.gen_shared(rng)}
         if u < 0.08 + RUN_SHARE:
             return {"run": self.gen_run(rng, "inproc")}
+        if u < 0.08 + RUN_SHARE + 0.03:
+            # digest.get_proteins itself on the pair the real code builds for a non-specific search
+            m = self._gen_hash_spec(rng)
+            qs = []
+            for _, q in self._hash_pool(rng, [m]) + self._hash_pool(rng, [m]):
+                if q not in qs:
+                    qs.append(q)
+            return {"lookup": {"map": m, "peptides": qs}}
         classes = dict(shipped_classes(), **custom_classes())
         st = rng.choice(list(classes))
         method = rng.choice(classes[st])
@@ -1054,16 +1360,20 @@ class P(Prop):
         fmt, remap = fmt_of(st, mokapot)
         bares = rng.sample(BARE, rng.choice([2, 2, 3, 4]))
         nfiles = rng.choice([1, 1, 2, 2, 3])
+        nmaps = 1 if (nfiles == 1 or rng.random() < 0.65) else nfiles
+        if nfiles == 3 and rng.random() < 0.08:
+            nmaps = 2  # caller error: zip() pairs two maps with the first two files, the third file is not read
+        hashed = remap and rng.random() < self.HASH_SHARE
+        if hashed:  # the digests of a non-specific search: built by the real code from a FASTA, see impl_map
+            maps, bares = self._hash_case_parts(rng, nmaps)
         files = self._gen_files(rng, fmt, bares, nfiles)
         if rng.random() < 0.07:
             self._spoil(rng, fmt, files)
-        maps = []
-        if remap:
-            nmaps = 1 if (nfiles == 1 or rng.random() < 0.65) else nfiles
-            if nfiles == 3 and rng.random() < 0.08:
-                nmaps = 2  # caller error: zip() pairs two maps with the first two files, the third file is not read
-            pool = bares + [b for b in BARE if b not in bares][:1]
-            maps = self._gen_maps(rng, pool, nmaps)
+        if not hashed:
+            maps = []
+            if remap:
+                pool = bares + [b for b in BARE if b not in bares][:1]
+                maps = self._gen_maps(rng, pool, nmaps)
         return {"method": method, "mokapot": mokapot, "colseed": rng.randint(0, 999), "maps": maps, "files": files}
 
     # several methods, one list of maps ----------------------------------------------------------
@@ -1104,6 +1414,11 @@ class P(Prop):
                 fams.append(f)
         counts = self._file_counts(rng, fams)
         bares = rng.sample(BARE, rng.choice([2, 3, 3, 4]))
+        any_remap = any(fmt_of(method_score_type(m), False)[1] for m in ms)
+        hmaps = None
+        if any_remap and rng.random() < self.HASH_SHARE:
+            nmaps = 1 if rng.random() < 0.7 else rng.choice(sorted(set(counts.values())))
+            hmaps, bares = self._hash_case_parts(rng, nmaps)
         calls = []
         for m in ms:
             st = method_score_type(m)
@@ -1114,9 +1429,10 @@ class P(Prop):
             if rng.random() < 0.04:
                 self._spoil(rng, fmt, files)
             calls.append({"method": m, "mokapot": mokapot, "colseed": rng.randint(0, 999), "files": files})
-        any_remap = any(fmt_of(method_score_type(m), False)[1] for m in ms)
         maps = []
-        if any_remap or rng.random() < 0.3:
+        if hmaps is not None:
+            maps = hmaps
+        elif any_remap or rng.random() < 0.3:
             nmaps = 1 if rng.random() < 0.7 else rng.choice([len(c["files"]) for c in calls])
             pool = bares + [b for b in BARE if b not in bares][:1]
             maps = self._gen_maps(rng, pool, nmaps)
@@ -1141,6 +1457,8 @@ class P(Prop):
             return [recs[:cut], recs[cut:]], decoys_in
         return [recs], decoys_in
 
+    RUN_HASH_SHARE = 0.18
+
     def _gen_digest(self, rng, n):
         """n parameter sets; n > 1: at least one parameter differs between the first two files"""
         opts = {"enzyme": ["trypsin", "trypsin", "trypsinp", "lys-c", "arg-c"], "mc": [0, 1, 2, 2], "min": [5, 5, 6, 10],
@@ -1148,6 +1466,17 @@ class P(Prop):
         base = {k: rng.choice(v) for k, v in opts.items()}
         if base["min"] > base["max"]:
             base["min"] = 5
+        # non-specific search (18 % of the runs): --enzyme no_enzyme, or --digestion none with any enzyme; the tool then
+        # builds the (prefix index, sequences) pair.  With per-file parameter sets the other files may be searched
+        # enzymatically (the varied parameter is drawn from the lists below).
+        if rng.random() < self.RUN_HASH_SHARE:
+            opts = dict(opts, enzyme=opts["enzyme"] + ["no_enzyme"] * 3, mode=opts["mode"] + ["none"] * 3,
+                        min=[5, 6, 7, 8], max=[60, 60, 15, 10])
+            if rng.random() < 0.6:
+                base["enzyme"] = "no_enzyme"
+            else:
+                base["mode"] = "none"
+            base["min"], base["max"] = rng.choice(opts["min"]), rng.choice(opts["max"])
         if n <= 1:
             return [base]
         vary = rng.sample(["mc", "mc", "enzyme", "min", "max", "special", "mode"], rng.choice([1, 1, 2]))
@@ -1194,15 +1523,26 @@ class P(Prop):
         if use_fasta:
             run["fasta"], run["decoys_in_fasta"] = self._gen_fasta(rng)
             run["digest"] = self._gen_digest(rng, nmaps)
-            maps = [dict((k, v) for k, v in m) for m in own_digest_maps(run)]
-            union = sorted(set().union(*[set(m) for m in maps])) if maps else []
+            own = own_digest_maps(run)
+            maps = [map_view(m) for m in own]
+            known = [m.known(16) for m in maps]
+            union = sorted(set().union(*known)) if maps else []
             short = [k for k in union if len(k) <= 16] or union
-            diff = [k for k in short if not all(k in m for m in maps)]
-            common = [k for k in short if all(k in m for m in maps)]
-            decoy = [k for k in short if any(o_decoy_list(m[k]) for m in maps if k in m)]
+            diff = [k for k in short if not all(k in kn for kn in known)]
+            common = [k for k in short if all(k in kn for kn in known)]
+            decoy = [k for k in short if any(o_decoy_list(m.get(k)) for m, kn in zip(maps, known) if k in kn)]
             bares = []
             for pool, k in ((diff, rng.choice([1, 2, 3])), (common, rng.choice([1, 2])), (decoy, 1)):
                 for b in rng.sample(pool, min(len(pool), k)):
+                    if b not in bares:
+                        bares.append(b)
+            if any(is_hash(m) for m in own):
+                # peptides contained in no sequence whose first six residues occur in the database, short ones, ...
+                hp = self._hash_pool(rng, [m for m in own if is_hash(m)])
+                pick = [q for t, q in hp if t.startswith("unknown_")]
+                pick = rng.sample(pick, min(len(pick), rng.choice([1, 2])))
+                pick += [q for t, q in rng.sample(hp, min(len(hp), 2))]
+                for b in pick:
                     if b not in bares:
                         bares.append(b)
             unknown = [b for b in BARE + ["NAQQKAAAAK"] if b not in union]
@@ -1255,6 +1595,16 @@ class P(Prop):
             return run_shared(case["shared"])
         if "run" in case:
             return run_scenario(case["run"])
+        if "lookup" in case:
+            from picked_group_fdr import digest
+
+            d = tempfile.mkdtemp(prefix="pgfdr_c10lk_")
+            try:
+                real = impl_map(case["lookup"]["map"], d)
+            finally:
+                shutil.rmtree(d, ignore_errors=True)
+            return {"lookup": [list(digest.get_proteins(real, q)) for q in case["lookup"]["peptides"]],
+                    "pair": isinstance(real, tuple)}
         st = method_score_type(case["method"])
         fmt, remap = fmt_of(st, case.get("mokapot", False))
         if fmt == "diann" and not pandas_grid_ok():
@@ -1265,7 +1615,7 @@ class P(Prop):
         try:
             cfg = parse_method(case["method"], d)
             paths = render(case, d)
-            maps = [dict((k, list(v)) for k, v in m) for m in case["maps"]] if case["maps"] else [None]
+            maps = [impl_map(m, d) for m in case["maps"]] if case["maps"] else [None]
             try:
                 res = evidence.parse_evidence_files(paths, maps, cfg.score_type, True)
             except (ValueError, TypeError) as e:
@@ -1292,7 +1642,7 @@ class P(Prop):
             [{"pep": r["pep"], "mod": r.get("mod", ""), "score": score(r["score"]), "prot": prot(r), "decoy": bool(r.get("decoy"))} for r in rows]
             for rows in c["files"]
         ]
-        req = {"op": "ingest", "method": c["method"], "mokapot": bool(c.get("mokapot")), "maps": c["maps"], "files": files}
+        req = {"op": "ingest", "method": c["method"], "mokapot": bool(c.get("mokapot")), "maps": [model_map(m) for m in c["maps"]], "files": files}
         if c["method"] in CUSTOM:  # no row of the generated table: the model gets the score description itself
             req["description"] = method_score_type(c["method"])
         return req
@@ -1302,6 +1652,8 @@ class P(Prop):
             return None
         if "strops" in case:
             return {"op": "c10_strops", "strings": [case["strops"]]}
+        if "lookup" in case:
+            return {"op": "c10_lookup", "map": model_map(case["lookup"]["map"]), "peptides": case["lookup"]["peptides"]}
         if "shared" in case:
             sh = case["shared"]
             return [self._ingest_req(dict(c, maps=sh["maps"])) for c in sh["calls"]]
@@ -1330,6 +1682,8 @@ class P(Prop):
     def model_view(self, case, resp, impl_out):
         if "strops" in case:
             return {"strops": resp["out"][0]} if isinstance(resp, dict) and "out" in resp else resp
+        if "lookup" in case:
+            return {"lookup": resp["out"]} if isinstance(resp, dict) and "out" in resp else resp
         if "shared" in case:
             return {"shared": [self._model_pil(r) for r in resp]}
         if "run" in case:
@@ -1346,6 +1700,8 @@ class P(Prop):
         return resp
 
     def impl_view(self, case, impl_out):
+        if "lookup" in case and isinstance(impl_out, dict) and "lookup" in impl_out:
+            return {"lookup": impl_out["lookup"]}
         if "shared" in case and isinstance(impl_out, dict) and "shared" in impl_out:
             return {"shared": [o["pil"] if "pil" in o else {"err": o.get("err")} for o in impl_out["shared"]]}
         if "run" in case and isinstance(impl_out, dict) and "fwd" in impl_out:
@@ -1364,6 +1720,8 @@ class P(Prop):
             return None
         if "cli" in case:
             return self.cli_oracle(case["cli"], impl_out)
+        if "lookup" in case:
+            return self.lookup_oracle(case["lookup"], impl_out)
         if "shared" in case:
             return self.shared_oracle(case["shared"], impl_out)
         if "run" in case:
@@ -1372,11 +1730,29 @@ class P(Prop):
             return "ingestion raised %s: %s where a peptide list was expected" % (impl_out["exc"], impl_out.get("msg", ""))
         want, info = expected(case)
         why = self.refusal_verdict(info, impl_out)
-        if why is not None or info["refused"]:
+        if why is not None or info["refused"] or (info.get("refusal_free") and impl_out.get("err") == "bad_score_cell"):
             return why
         if not isinstance(impl_out, dict) or "pil" not in impl_out:
             return "no peptide list returned: %r" % (impl_out,)
-        return self.judge(want, impl_out["pil"])
+        return self.judge(want, impl_out["pil"], info)
+
+    @staticmethod
+    def lookup_oracle(lk, out):
+        """digest.get_proteins on a non-specific digest: a peptide inside the length window gets exactly the target and
+        generated decoy sequences that contain it, a peptide no sequence contains gets none (whatever its length and its
+        first six residues); a substring outside the window is not judged beyond 'only sequences containing it'"""
+        if not isinstance(out, dict) or "lookup" not in out:
+            return "lookup failed: %r" % (out,)
+        v = HashView(lk["map"])
+        for q, got in zip(lk["peptides"], out["lookup"]):
+            c, judged = v.lookup(q)
+            if judged and sorted(got) != c:
+                if not c:
+                    return f"peptide {q} is contained in no target or decoy sequence and must be unknown to the digest, got {got} ({v.prefix_owners(q)} sequences contain its first six residues)"
+                return f"peptide {q}: proteins {got} returned, the sequences containing it are {c}"
+            if not judged and not set(got) <= set(c):
+                return f"peptide {q}: proteins {got} returned, the sequences containing it are {c}"
+        return None
 
     @staticmethod
     def refusal_verdict(info, out):
@@ -1385,16 +1761,26 @@ class P(Prop):
         if info["refused"] and err != "bad_score_cell":
             return "a PEP cell that is no number (and no missing value of the format) was not refused: %r" % (
                 {k: v for k, v in out.items() if k in ("pil", "err")} if isinstance(out, dict) else out,)
+        if not info["refused"] and err == "bad_score_cell" and info.get("refusal_free"):
+            return None
         if not info["refused"] and err is not None:
             return "ingestion refused the file set (%s) although no cell its parser has to convert holds anything but a number or a missing value of the format" % err
         return None
 
-    def judge(self, want, pil):
-        """the property on one ingested peptide list: `want` = expected(case)[0]"""
+    def judge(self, want, pil, info=None):
+        """the property on one ingested peptide list: `want`, `info` = expected(case)"""
+        free = (info or {}).get("free", {})
+        unordered = (info or {}).get("unordered", ())
         for k, s, ps in pil:
             if s == "nan":
                 return f"peptide {k} reported with a NaN score (rows without a PEP must be ignored)"
-        got = [(k, unrat(s), ps) for k, s, ps in pil]
+        got_all = [(k, unrat(s), ps) for k, s, ps in pil]
+        for k, s, ps in got_all:
+            # a substring of a database sequence outside the length window of a non-specific digest: the property does not
+            # say whether the digest knows it; if it is reported, then with sequences containing it
+            if k in free and not any(set(ps) <= set(a) for a in free[k]):
+                return f"peptide {k}: proteins {ps} reported, the database sequences containing it are {free[k]}"
+        got = [g for g in got_all if g[0] not in free]
         gk, wk = [g[0] for g in got], [w[0] for w in want]
         if sorted(gk) != sorted(wk):
             extra = sorted(set(gk) - set(wk))
@@ -1404,12 +1790,12 @@ class P(Prop):
         for k, s, ps in got:
             if s != wd[k][0]:
                 return f"peptide {k}: PEP {float(s)} reported, lowest PEP over its PSMs is {float(wd[k][0])}"
-            if ps != wd[k][1]:
+            if ps != wd[k][1] and not (k in unordered and sorted(ps) == sorted(wd[k][1])):
                 return f"peptide {k}: proteins {ps} reported, the first PSM attaining the lowest PEP carries {wd[k][1]}"
         if gk != wk:
             return f"peptide order {gk} differs from order of first scored appearance {wk}"
         # purity of the resulting list (well-formed identifiers: markers only as prefixes)
-        for k, s, ps in got:
+        for k, s, ps in got_all:
             if not ps:
                 return f"peptide {k} reported with an empty protein list"
             if all(self._wellformed_id(p) for p in ps):
@@ -1436,8 +1822,8 @@ class P(Prop):
         for i, (c, o) in enumerate(zip(sh["calls"], out["shared"])):
             want, info = expected(dict(c, maps=sh["maps"]))
             why = self.refusal_verdict(info, o)
-            if why is None and not info["refused"]:
-                why = self.judge(want, o["pil"])
+            if why is None and not info["refused"] and not (info.get("refusal_free") and o.get("err") == "bad_score_cell"):
+                why = self.judge(want, o["pil"], info)
             if why:
                 return f"ingestion {i + 1} of {len(sh['calls'])} ({c['method']}, {len(c['files'])} files, same map list as the ingestions before it): {why}"
         for i, (c, o) in enumerate(zip(sh["calls"], out["shared"])):
@@ -1455,7 +1841,8 @@ class P(Prop):
         if not isinstance(out, dict) or "fwd" not in out:
             return "no run result: %r" % (out,)
         maps = run_maps(run)
-        want = {m: expected(sub_case(run, m, maps))[0] for m in run["methods"]}
+        exp = {m: expected(sub_case(run, m, maps)) for m in run["methods"]}
+        want = {m: e[0] for m, e in exp.items()}
         per_method = {}
         for name, ms in run_orders(run):
             R = out.get(name) if not name.startswith("alone") else out["alone"][int(name[5:])]
@@ -1476,7 +1863,7 @@ class P(Prop):
                 #  the one of reading every mention through the map of its position -- judged below)
                 if c["nfiles"] != nf and not twice:
                     return f"{tag}: {c['nfiles']} evidence files handed to the ingestion"
-                why = self.judge(want[m], c["pil"])
+                why = self.judge(want[m], c["pil"], exp[m][1])
                 if why:
                     return f"{tag}: {why}"
                 # (a map list altered by an ingestion is not a verdict here: if it matters, a method of one of the
@@ -1484,7 +1871,7 @@ class P(Prop):
                 if isinstance(c.get("groups"), dict):
                     return f"{tag}: written table unreadable: {c['groups']}"
                 if c.get("groups") is not None:
-                    why = self.groups_verdict(want[m], c["groups"])
+                    why = self.groups_verdict(want[m], c["groups"], exp[m][1])
                     if why:
                         return f"{tag}: {why}"
                 per_method.setdefault(m, []).append((where, c["pil"]))
@@ -1506,10 +1893,10 @@ class P(Prop):
             return None
         if "groups" not in out:
             return "command line failed: %s" % (out.get("msg"),)
-        return self.groups_verdict(want, out["groups"])
+        return self.groups_verdict(want, out["groups"], info)
 
-    def groups_verdict(self, want, groups):
-        known = {p for _, _, ps in want for p in ps}
+    def groups_verdict(self, want, groups, info=None):
+        known = {p for _, _, ps in want for p in ps} | {p for ls in (info or {}).get("free", {}).values() for a in ls for p in a}
         for g in groups:
             if all(self._wellformed_id(p) for p in g):
                 if any(o_is_decoy_id(p) for p in g) and not o_decoy_list(g):
@@ -1523,12 +1910,12 @@ class P(Prop):
     # repair not be applied): the method remaps, some digest map holds exactly two peptides, ingestion dies
     # with KeyError: 0 in digest.get_proteins
     def two_peptide_digest_map(self, case, impl_out, rec=None):
-        if "cli" in case or "strops" in case or "shared" in case or "run" in case:
+        if "cli" in case or "strops" in case or "shared" in case or "run" in case or "lookup" in case:
             return False
         _, remap = fmt_of(method_score_type(case["method"]), case.get("mokapot", False))
         return (
             remap
-            and any(len(m) == 2 for m in case["maps"])
+            and any(len(m) == 2 for m in case["maps"] if not is_hash(m))
             and isinstance(impl_out, dict)
             and impl_out.get("exc") == "KeyError"
             and impl_out.get("msg") == "0"
@@ -1547,6 +1934,10 @@ class P(Prop):
     def nontrivial(self, case, impl_out):
         if "strops" in case or "cli" in case:
             return False
+        if "lookup" in case:
+            v = HashView(case["lookup"]["map"])
+            res = [v.lookup(q) for q in case["lookup"]["peptides"]]
+            return any(c and j for c, j in res) and any(not c and v.prefix_owners(q) for (c, j), q in zip(res, case["lookup"]["peptides"]))
         if "shared" in case:
             sh = case["shared"]
             exps = [expected(dict(c, maps=sh["maps"])) for c in sh["calls"]]
@@ -1566,7 +1957,7 @@ class P(Prop):
         elsewhere = later_more = False
         rem = [m for m in run["methods"] if fmt_of(method_score_type(m), False)[1]]
         if len(maps) > 1:
-            dm = [dict((k, v) for k, v in m) for m in maps]
+            dm = [map_view(m) for m in maps]
             for m in rem:
                 for i, rows in enumerate(sub_case(run, m, maps)["files"][: len(dm)]):
                     for r in rows:
@@ -1588,10 +1979,23 @@ class P(Prop):
             return ["strops"]
         if "cli" in case:
             return ["cli"]
+        if "lookup" in case:
+            v = HashView(case["lookup"]["map"])
+            f = {"lookup", "lookup_via=" + case["lookup"]["map"]["hash"].get("via", "from_params")}
+            for q in case["lookup"]["peptides"]:
+                c, j = v.lookup(q)
+                f.add("lookup:" + ("outside_window" if not j else "known" if c else "unknown_prefix_in_%d_sequences" % min(v.prefix_owners(q), 2)))
+                if len(q) <= 6:
+                    f.add("lookup:shorter_than_6" if len(q) < 6 else "lookup:exactly_6")
+                if j and c and any(o_is_decoy_id(p) for p in c) and not all(o_is_decoy_id(p) for p in c):
+                    f.add("lookup:in_target_and_decoy_sequence")
+            return sorted(f)
         if "shared" in case:
             sh = case["shared"]
             ns = [len(c["files"]) for c in sh["calls"]]
             f = ["shared_map_list", "shared_calls=%d" % len(ns), "shared_maps=%d" % len(sh["maps"])]
+            if any(is_hash(m) for m in sh["maps"]):
+                f.append("shared_non_specific_digest")
             if len(set(ns)) > 1:
                 f.append("shared_different_file_counts")
             if len(sh["maps"]) == 1 and any(ns[i] >= 2 and any(n > ns[i] for n in ns[i + 1:]) for i in range(len(ns))):
@@ -1606,6 +2010,13 @@ class P(Prop):
             f += ["run_input=" + fam for fam in sorted(run["inputs"])]
             if len({len(i["files"]) for i in run["inputs"].values()}) > 1:
                 f.append("run_different_file_counts")
+            if any(is_hash(m) for m in maps):
+                f.append("run_non_specific_digest")
+                if not all(is_hash(m) for m in maps):
+                    f.append("run_non_specific_and_enzymatic_digests")
+                for m in run["methods"]:
+                    if fmt_of(method_score_type(m), False)[1]:
+                        f += ["run_non_specific:" + k for k in sorted(expected(sub_case(run, m, maps))[1]["hash"])]
             if run.get("fasta") and len(maps) > 1:
                 f.append("run_per_file_digestion_params")
                 f += ["run_varies=" + k for _, k in DIGEST_FLAGS if len({str(p[k]) for p in eff_digest(run)}) > 1]
@@ -1660,8 +2071,14 @@ class P(Prop):
             f.append("has_malformed_row")
         if isinstance(impl_out, dict) and "exc" in impl_out:
             f.append("impl_exception=" + impl_out["exc"])
-        if any(len(m) == 2 for m in case["maps"]):
+        if any(len(m) == 2 for m in case["maps"] if not is_hash(m)):
             f.append("map_of_two_peptides")
+        if remap and any(is_hash(m) for m in case["maps"]):
+            f.append("non_specific_digest")
+            f += ["non_specific_via=" + m["hash"].get("via", "from_params") for m in case["maps"] if is_hash(m) and "hash" in m]
+            if not all(is_hash(m) for m in case["maps"]):
+                f.append("non_specific_and_enzymatic_digests_in_one_call")
+            f += ["non_specific:" + k for k in sorted(info["hash"])]
         return f
 
     def shrink(self, case):
@@ -1674,6 +2091,14 @@ class P(Prop):
             s = case["strops"]
             for i in range(len(s)):
                 yield {"strops": s[:i] + s[i + 1:]}
+            return
+        if "lookup" in case:
+            lk = case["lookup"]
+            for i in range(len(lk["peptides"])):
+                if len(lk["peptides"]) > 1:
+                    yield {"lookup": dict(lk, peptides=lk["peptides"][:i] + lk["peptides"][i + 1:])}
+            for m2 in self._shrink_hash(lk["map"]):
+                yield {"lookup": dict(lk, map=m2)}
             return
         if "shared" in case or "run" in case:
             # the engine keeps any candidate on which the oracle still fails; a case in which some method ingests
@@ -1707,8 +2132,12 @@ class P(Prop):
         for i, rows in enumerate(files):
             for j in range(len(rows)):
                 yield dict(base, files=files[:i] + [rows[:j] + rows[j + 1:]] + files[i + 1:], maps=maps)
-        # drop a map entry
+        # drop a map entry / make the database of a non-specific digest smaller
         for i, m in enumerate(maps):
+            if is_hash(m):
+                for m2 in self._shrink_hash(m):
+                    yield dict(base, files=files, maps=maps[:i] + [m2] + maps[i + 1:])
+                continue
             for j in range(len(m)):
                 yield dict(base, files=files, maps=maps[:i] + [m[:j] + m[j + 1:]] + maps[i + 1:])
         # per-file maps -> a single map
@@ -1716,6 +2145,29 @@ class P(Prop):
             yield dict(base, files=files, maps=maps[:1])
         if case.get("colseed"):
             yield dict(base, files=files, maps=maps, colseed=0)
+
+    @staticmethod
+    def _shrink_hash(m):
+        """smaller databases of a non-specific digest: without one record, the files merged, a sequence without its first
+        / last residue, the plain builder call"""
+        if "hash" not in m:
+            return
+        h = m["hash"]
+        fa = h["fasta"]
+        for i, recs in enumerate(fa):
+            for j in range(len(recs)):
+                f2 = [r for r in fa[:i] + [recs[:j] + recs[j + 1:]] + fa[i + 1:] if r]
+                if f2:
+                    yield {"hash": dict(h, fasta=f2)}
+        if len(fa) > 1:
+            yield {"hash": dict(h, fasta=[[r for recs in fa for r in recs]])}
+        if h.get("via", "from_params") != "from_params":
+            yield {"hash": dict(h, via="from_params")}
+        for i, recs in enumerate(fa):
+            for j, (hd, sq) in enumerate(recs):
+                for sq2 in (sq[1:], sq[:-1]):
+                    if len(sq2) >= 1:
+                        yield {"hash": dict(h, fasta=fa[:i] + [recs[:j] + [[hd, sq2]] + recs[j + 1:]] + fa[i + 1:])}
 
     def _wrong_list(self, case):
         """does some ingestion of this shared / run case return a peptide list the property rejects?"""
@@ -1729,6 +2181,8 @@ class P(Prop):
     @staticmethod
     def _escalate_shared(sh):
         maps = sh["maps"]
+        if any(is_hash(m) for m in maps):
+            return
         entry = next(([k, ps] for m in maps for k, ps in m if ps and not any(o_is_decoy_id(p) for p in ps)), None)
         if entry is None:
             entry = ["AAAAK", ["T1"]]
@@ -1772,6 +2226,10 @@ class P(Prop):
         if len(maps) > 1:
             yield {"shared": {"maps": maps[:1], "calls": calls}}
         for i, m in enumerate(maps):
+            if is_hash(m):
+                for m2 in self._shrink_hash(m):
+                    yield {"shared": {"maps": maps[:i] + [m2] + maps[i + 1:], "calls": calls}}
+                continue
             for j in range(len(m)):
                 yield {"shared": {"maps": maps[:i] + [m[:j] + m[j + 1:]] + maps[i + 1:], "calls": calls}}
 
@@ -1888,7 +2346,8 @@ class P(Prop):
         # (b) several methods in one run, two of them remapping, one map for all files, the method with more files
         #     (whose last files matter) coming after one with at least two in one of the two orders;
         # (c) any other run of several methods.  Every scenario of (b)/(c) = both method orders + each method alone.
-        quota = {"a": 6, "b": 6, "c": 3} if ctx["tier"] == "quick" else {"a": 60, "b": 60, "c": 30}
+        # (h) a remapping method on a non-specific search (--enzyme no_enzyme / --digestion none): the pair is built by the tool
+        quota = {"a": 6, "b": 6, "c": 3, "h": 3} if ctx["tier"] == "quick" else {"a": 60, "b": 60, "c": 30, "h": 30}
         if ctx.get("replay"):
             quota = {}
         rrng = random.Random(ctx["seed"] * 15485863 + 11)
@@ -1898,7 +2357,9 @@ class P(Prop):
             guard += 1
             r = self.gen_run(rrng, "cli")
             rem = [m for m in r["methods"] if fmt_of(method_score_type(m), False)[1]]
-            if len(r["methods"]) == 1:
+            if rem and r.get("fasta") and quota.get("h") and any(is_hash(m) for m in run_maps(r)):
+                k = "h"
+            elif len(r["methods"]) == 1:
                 k = "a" if (r.get("fasta") and rem and len(eff_digest(r)) > 1) else None
             elif len(run_maps(r)) == 1 and self.run_sensitivity(r)[1]:
                 k = "b"
@@ -1911,7 +2372,8 @@ class P(Prop):
         rstats = {"scenarios": len(runs), "entry_point_runs": 0, "ingestions_compared": 0, "tables": 0,
                   "per_file_digestion_params": 0, "peptide_known_to_other_files_digest_only": 0,
                   "later_method_more_files": 0, "no_ranked_groups": 0, "files_mentioned_in_non_alphabetical_order": 0,
-                  "per_file_digestion_params_and_non_alphabetical_order": 0, "file_mentioned_twice": 0}
+                  "per_file_digestion_params_and_non_alphabetical_order": 0, "file_mentioned_twice": 0,
+                  "non_specific_digest_and_remapping_method": 0}
         modelled = 0
         if cases or runs:
             from concurrent.futures import ThreadPoolExecutor
@@ -1949,6 +2411,8 @@ class P(Prop):
                 e, l = self.run_sensitivity(c["run"])
                 rstats["per_file_digestion_params"] += int(bool(c["run"].get("fasta")) and len(eff_digest(c["run"])) > 1)
                 rstats["peptide_known_to_other_files_digest_only"] += int(e)
+                rstats["non_specific_digest_and_remapping_method"] += int(
+                    any(is_hash(m) for m in run_maps(c["run"])) and any(fmt_of(method_score_type(m), False)[1] for m in c["run"]["methods"]))
                 nms = [i["names"] for i in c["run"]["inputs"].values() if isinstance(i.get("names"), list) and len(i["names"]) > 1]
                 unsorted = any(nm != sorted(nm) for nm in nms)
                 rstats["files_mentioned_in_non_alphabetical_order"] += int(unsorted)
